@@ -710,6 +710,7 @@ def item_backend(mido, out):
         with open(os.path.join(d, 'vfvar_backend.py'), 'w') as f:
             f.write("calls = []\nclass _P:\n    def __init__(self, name=None, **kw):\n        self.name = name; self.closed = False; self._messages = __import__('collections').deque()\n"
                     "        calls.append((type(self).__name__, name, kw.get('api')))\n"
+                    "    def close(self):\n        self.closed = True\n"
                     "class Input(_P): pass\nclass Output(_P): pass\n"
                     "def get_devices(**kw):\n    calls.append(('get_devices', None, kw.get('api')))\n"
                     "    return [{'name': 'a', 'is_input': True, 'is_output': True}, {'name': 'b', 'is_input': True, 'is_output': False}]\n")
